@@ -37,6 +37,7 @@ TrReset ==
     /\ running' = FALSE /\ conn' = {} /\ pexOn' = {} /\ queue' = {} /\ dialled' = {}
     /\ dhtAnn' = FALSE /\ dhtPending' = FALSE /\ asked' = FALSE /\ sibAsked' = FALSE /\ nodes' = FALSE
     /\ magnetRes' = "none" /\ leak' = {} /\ hist' = 0
+    /\ life' = [bf |-> FALSE, ident |-> IF Ev.mode = "file" /\ IsPrivateEncoding(Ev.encv) THEN "private" ELSE "public", gone |-> FALSE]
     /\ l' = l + 1
 
 Keep == UNCHANGED <<hist, pend>> /\ l' = l + 1
@@ -55,6 +56,19 @@ TrExtHs == Ev.ev = "exths" /\ (IF Ev.p \in conn THEN DoExtHs(Ev.p) /\ UNCHANGED 
 TrPexMsg == Ev.ev = "pexmsg" /\ (IF Ev.p \in conn THEN DoPexMsg(Ev.p) /\ UNCHANGED hist ELSE UNCHANGED vars) /\ UNCHANGED pend /\ l' = l + 1
 TrPortMsg == Ev.ev = "port" /\ (IF Ev.p \in conn THEN DoPortMsg(Ev.p) /\ UNCHANGED hist ELSE UNCHANGED vars) /\ UNCHANGED pend /\ l' = l + 1
 TrSibling == Ev.ev = "sibling" /\ (IF cfg.sibling /\ cfg.dht THEN DoSiblingAsk /\ UNCHANGED hist ELSE UNCHANGED vars) /\ UNCHANGED pend /\ l' = l + 1
+\* the session was closed and a new one loaded the torrent from its resume record; Ev.bf = the record held a bitfield
+\* (read from the database by the harness between the two sessions)
+TrReload ==
+    /\ Ev.ev = "reload"
+    /\ life' = [bf |-> Ev.bf, ident |-> IF IsPriv THEN "private" ELSE "public", gone |-> FALSE]
+    /\ StopEffects /\ info' = (IF info = "refused" THEN "none" ELSE info)
+    /\ UNCHANGED <<cfg, dialled, asked, sibAsked, nodes, magnetRes, leak, hist>>
+    /\ pend' = pend \cup queue /\ l' = l + 1
+\* RemoveTorrent / Session.Close; the harness keeps the handle
+TrGone ==
+    /\ Ev.ev = "gone"
+    /\ DoGone /\ UNCHANGED hist
+    /\ pend' = pend \cup queue /\ l' = l + 1
 TrDhtValues ==       \* the DHT stub answered a get_peers for the info-hash with a peer address
     /\ Ev.ev = "dhtvalues"
     /\ IF asked \/ sibAsked THEN DoDhtPeers /\ UNCHANGED hist ELSE UNCHANGED vars
@@ -75,7 +89,7 @@ TrDial ==
                          ELSE IF Why = "refused" THEN "C19.metadata.leak.dial"
                          ELSE "NOTE.dial.unexplained." \o Ev.src)
                  /\ dialled' = dialled \cup {Ev.src} /\ conn' = conn \cup {Ev.src}
-                 /\ UNCHANGED <<cfg, info, running, pexOn, queue, dhtAnn, dhtPending, asked, sibAsked, nodes, magnetRes, leak, hist>>
+                 /\ UNCHANGED <<cfg, info, running, pexOn, queue, dhtAnn, dhtPending, asked, sibAsked, nodes, magnetRes, leak, hist, life>>
     /\ UNCHANGED pend /\ l' = l + 1
 
 \* @obligation C19.pex.sent   the client sent a ut_pex message to peer Ev.p
@@ -94,13 +108,13 @@ TrDhtQ ==
            sib == cfg.sibling /\ sibAsked /\ Ev.who # "t1"                \* the sibling asks on its own behalf
        IN IF mine
           THEN /\ asked' = TRUE /\ dhtPending' = dhtPending
-               /\ UNCHANGED <<cfg, info, running, conn, pexOn, queue, dialled, dhtAnn, sibAsked, nodes, magnetRes, leak, hist>>
+               /\ UNCHANGED <<cfg, info, running, conn, pexOn, queue, dialled, dhtAnn, sibAsked, nodes, magnetRes, leak, hist, life>>
           ELSE /\ Note(IF sib THEN ""
                        ELSE IF Why = "private" THEN "C19.dht.asked"
                        ELSE IF Why = "refused" THEN "C19.metadata.leak.dht"
                        ELSE "NOTE.dht.unexplained")
                /\ asked' = TRUE
-               /\ UNCHANGED <<cfg, info, running, conn, pexOn, queue, dialled, dhtAnn, dhtPending, sibAsked, nodes, magnetRes, leak, hist>>
+               /\ UNCHANGED <<cfg, info, running, conn, pexOn, queue, dialled, dhtAnn, dhtPending, sibAsked, nodes, magnetRes, leak, hist, life>>
     /\ UNCHANGED pend /\ l' = l + 1
 
 \* @obligation C19.metadata   private metadata from a magnet link is refused (and public metadata is adopted)
@@ -117,10 +131,10 @@ TrMeta ==
     /\ pend' = IF Ev.outcome = "refused" THEN pend \cup queue ELSE pend
     /\ l' = l + 1
 
-\* @obligation C19.magnet
+\* @obligation C19.magnet   in every life-cycle state of the handle (before the metadata, running, stopped, removed, session closed)
 TrMagnet ==
     /\ Ev.ev = "magnet"
-    /\ Note(IF IsPriv /\ ~Ev.err THEN "C19.magnet"
+    /\ Note(IF IsPriv /\ ~Ev.err THEN (IF life.gone THEN "C19.magnet.gone" ELSE "C19.magnet")
             ELSE IF ~IsPriv /\ Ev.err THEN "NOTE.magnet.public.err"
             ELSE "")
     /\ DoMagnet(~Ev.err) /\ Keep
@@ -151,7 +165,7 @@ TrSkip == Ev.ev \in {"end", "note"} /\ Skip
 TraceNext ==
     /\ l <= Len(Trace)
     /\ \/ TrReset \/ TrStart \/ TrStop \/ TrTrackerReply \/ TrAddPeer \/ TrConnIn \/ TrExtHs \/ TrPexMsg \/ TrPortMsg
-       \/ TrSibling \/ TrDhtValues \/ TrDial \/ TrPexRx \/ TrDhtQ \/ TrMeta \/ TrMagnet \/ TrIdent \/ TrObs \/ TrSkip
+       \/ TrSibling \/ TrReload \/ TrGone \/ TrDhtValues \/ TrDial \/ TrPexRx \/ TrDhtQ \/ TrMeta \/ TrMagnet \/ TrIdent \/ TrObs \/ TrSkip
 
 TraceSpec == TraceInit /\ [][TraceNext]_tvars
 
